@@ -164,7 +164,10 @@ fn sweep(te: &Te, rt: &tokio::runtime::Runtime, model: &BTreeMap<u64, Vec<f32>>,
             json!({"engine":"seqmc","check":"C06","case":case,"query":q,"k":k,"ef":ef,"entry":entry,"detail":detail}),
         ));
     };
-    for q in &queries {
+    for (qidx, q) in queries.iter().enumerate() {
+        // the batch pairs the query just cached by the single search (a hit) with the next lattice
+        // query, which has not been searched yet (a miss): mixed hit/miss batches
+        let next_q = queries[(qidx + 1) % queries.len()].clone();
         for &k in ks {
             for &ef in efs {
                 // 1. sync single search
@@ -189,10 +192,10 @@ fn sweep(te: &Te, rt: &tokio::runtime::Runtime, model: &BTreeMap<u64, Vec<f32>>,
                 }
                 // 2. batch
                 st.searches += 1;
-                match te.engine.knn_search_batch_with_ef_detailed(&[q.clone(), queries[0].clone()], k, ef) {
+                match te.engine.knn_search_batch_with_ef_detailed(&[q.clone(), next_q.clone()], k, ef) {
                     Ok(all) => {
                         for (qi, (res, path)) in all.iter().enumerate() {
-                            let qq = if qi == 0 { q } else { &queries[0] };
+                            let qq = if qi == 0 { q } else { &next_q };
                             st.paths.insert(format!("batch:{path:?}"));
                             if let Err((s, d)) = check_results(&sc, qq, k, res, false) {
                                 fail(st, &format!("knn_search_batch[{path:?}]"), s, d, qq, k, ef);
